@@ -77,6 +77,18 @@ CHECKS = {
              'independent monitor, not yet by a Lean theorem; builder is the trusted specification.',
         technique='Lean 4 model + classifier theorems + model/implementation correspondence with metamorphic re-parse',
         design='§4 C04'),
+    'C05': dict(
+        text='Theorems: the MSB-first content index round-trips for every set of indices; 64-byte alignment of the '
+             'cumulative offsets; title-key recovery from the ticket (given D∘E = id), dev common key 0; detection of '
+             'an active content the TMD lacks; content regions and IVs; content view = CBC over window (C02∘C09); '
+             'heap-level engine isolation.  Tied to CIAReader by differential execution on archives from independent '
+             'builders (size residues mod 64, presence bitmaps incl. second index byte, encrypted/plain, common key '
+             '0-5, retail/dev, start offsets) with monitors on geometry, title key, selection, content bytes and '
+             'nested readers read in interleaved order (engine identity checked).',
+        note=COMMON_NOTE + 'independent CIA/ticket/TMD/NCCH builders are the specification; AES/SHA-256 parameters; '
+             'float-based util.roundup = roundupNat validated by correspondence; certificates are opaque.',
+        technique='Lean 4 proof (bitmap, alignment, key recovery, composition) + model/implementation correspondence',
+        design='§4 C05'),
     'C06': dict(
         text='Theorems: the reader walk (iterate_dir with its sibling loops and entry counters) on ANY metadata tables '
              'that represent a tree (decidable predicate repDir; any shape, depth, names) with distinct sibling keys '
